@@ -62,7 +62,7 @@ def run(chk):
             if is_q is True:
                 n_yes += 1
                 ok = ok and len(calls) == 1 and calls[0].endswith(".freeze()") and not other
-                extra_conds = [c for c in bp.cond_texts() if "QModuleMixin" not in c]
+                extra_conds = [k2 for k2 in fb if "QModuleMixin" not in k2]
                 ok = ok and not extra_conds
             else:
                 ok = ok and not calls and not other
